@@ -41,6 +41,19 @@ def mutating_ir_constructors(p):
                     if r and r[0] == "class" and r[1].name in ("CallInplace", "UpdateItem"):
                         out.append(f)
                         break
+    # ... and the module-level functions that build them through one of those (`setitem` -> `_update_item`)
+    grew = True
+    while grew:
+        grew = False
+        for f in p.funcs.values():
+            if f.module is m and f.cls is None and f.parent is None and f not in out:
+                for n in walk_no_nested(f.node):
+                    if isinstance(n, ast.Call):
+                        r = resolve_callee(p, n, m)
+                        if r and r[0] == "func" and r[1] in out:
+                            out.append(f)
+                            grew = True
+                            break
     if len(out) < 3:
         raise AnalysisError(f"expected >= 3 mutating IR constructors (call_inplace, setitem, additem, subtractitem), found {[f.name for f in out]}")
     return out
